@@ -101,7 +101,12 @@ def run(cx):
         cx.guard('C09.G2', nodata, {
             'matching-record': rf'^ok\({QREC}\)$',
             'qtype-bit-clear': rf'^!RecordTypeSet::contains\(NSEC3::type_set\({QREC}@Some\.0\.nsec3_data\),arg1\)$',
-            'cname-bit-clear': rf'^!RecordTypeSet::contains\(NSEC3::type_set\({QREC}@Some\.0\.nsec3_data\),RecordType::CNAME\)$'}, expect=1, fn=f)
+            'cname-bit-clear': rf'^!RecordTypeSet::contains\(NSEC3::type_set\({QREC}@Some\.0\.nsec3_data\),RecordType::CNAME\)$',
+            # RFC 6840 4.1: an ancestor-delegation NSEC3 (NS set, SOA clear) proves nothing but DS absence
+            'not-ancestor-delegation(RFC6840-4.1)':
+                rf'^!RecordTypeSet::contains\(NSEC3::type_set\({QREC}@Some\.0\.nsec3_data\),RecordType::NS\)$|'
+                rf'^RecordTypeSet::contains\(NSEC3::type_set\({QREC}@Some\.0\.nsec3_data\),RecordType::SOA\)$|'
+                r'^eq:RecordType\(RecordType::DS,arg1\)$'}, expect=1, fn=f)
         cx.guard('C09.G2', optout, {
             'qtype-is-DS': r'^eq:RecordType\(RecordType::DS,arg1\)$',
             'no-matching-record': rf'^!ok\({QREC}\)$',
@@ -131,6 +136,18 @@ def run(cx):
             'next-closer': rf'^ok\({CEW}\.0\.next_closer\)$',
             'wildcard-matched': rf'^ok\({CEW}\.1\)$'}, expect=1, fn=f)
         # the wildcard lookup really is "matching" in the NODATA case and "covering" in the NXDOMAIN case
+    # RFC 5155 8.3: the NSEC3 RR that matches the closest encloser must be from the proper zone - "the DNAME type bit must not be set
+    # and the NS type bit may only be set if the SOA type bit is set" - otherwise it is the parent side of a delegation (or a DNAME
+    # owner) and says nothing about names below it
+    cp = cx.fn('C09.G2', N + 'Context::closest_encloser_proof')
+    if cp:
+        found = cx.returns(cp, r'^ClosestEncloserProofInfo\(Option::Some\(')
+        MATCH = r"<Iter<'a;T> as Iterator>::find_map\(slice::iter\(Iterator::collect\(Iterator::map\(Context::encloser_candidates\(arg1\),closure:[^)]*\)\)\),closure:[^)]*\)@Some\.0"
+        TS3 = rf'RecordTypeSet::contains\(NSEC3::type_set\({MATCH}\.nsec3_data\),%s\)'
+        cx.guard('C09.G2', found, {
+            'closest-encloser-has-a-matching-record': rf"^ok\(<Iter<'a;T> as Iterator>::find_map\(",
+            'closest-encloser-is-not-a-DNAME-owner(RFC5155-8.3)': '^!' + TS3 % r'(const:nsec3::DNAME|RecordType::Unknown\(39\))' + '$',
+            'closest-encloser-is-not-a-delegation(RFC5155-8.3)': '^!' + TS3 % 'RecordType::NS' + '$|^' + TS3 % 'RecordType::SOA' + '$'}, expect=1, fn=cp)
     w = cx.fn('C09.G2', N + 'Context::closest_encloser_proof_with_wildcard')
     if w:
         cov = cx.calls(w, r'nsec3::find_covering_record$')
@@ -181,8 +198,9 @@ def run(cx):
 
 
 def auth_filter(cx, rule, variant):
-    """the filter_map closure that selects NSEC/NSEC3 records yields Some only if some record with
-    the same owner carries Proof::Secure"""
+    """the filter_map closure of verify_response that selects the NSEC / NSEC3 records handed to the proof yields a record only
+    if THAT record's own validation verdict is Proof::Secure.  (Until F31 the tree asked for "some record with the same owner
+    is Secure", which let an unsigned NSEC at the owner of a signed RRset - the apex, next to the SOA - into the proof.)"""
     V = 'hickory_net::dnssec::DnssecDnsHandle::verify_response::{closure#0}::'
     found = 0
     for g in cx.prog.find(r'^hickory_net::dnssec::DnssecDnsHandle::verify_response::\{closure#0\}::\{closure[^}]*\}$'):
@@ -190,18 +208,7 @@ def auth_filter(cx, rule, variant):
         if not some:
             continue
         found += 1
-        cx.guard(rule, some, {'owner-has-secure-record':
-                 r"^<Iter<'a;T> as Iterator>::any\(slice::iter\(.*\.authorities\),closure:.*\)$"}, expect=1, fn=g)
-        # the inner predicate: same owner and Secure
+        cx.guard(rule, some, {'the-record-itself-is-secure': r'^eq:Proof\(Proof::Secure,arg2\.proof\)$|^eq:Proof\(arg2\.proof,Proof::Secure\)$|^is\(arg2\.proof,Secure\)$'}, expect=1, fn=g)
         for s in some:
-            pass
-        inner = [h for h in cx.prog.find('^' + re.escape(g.path) + r'::\{closure[^}]*\}$')]
-        okp = False
-        for h in inner:
-            fr = cx.true_returns(h)
-            if not fr:
-                continue
-            holds = all(cx.has_guard(s, r'^eq:Name\(.*\.name,.*\.name\)$') and cx.has_guard(s, r'^eq:Proof\(Proof::Secure,.*\.proof\)$') for s in fr)
-            okp = okp or holds
-        cx.check(rule, okp, g.path, 'inner-predicate', 'same-owner-and-secure', f'{len(inner)} inner closures')
+            cx.check(rule, bool(re.search(rf'^Option::Some\(\(arg2\.name,arg2\.data@DNSSEC\.0@{variant}\.0\)\)$', s.term)), g.path, s.key(), 'yields-owner-and-rdata-of-that-record', s.term[:120], s.loc)
     cx.check(rule, found == 1, V + '*', 'filters', 'authenticated-filter-present', f'{found} {variant} filters')
